@@ -262,7 +262,8 @@ def v1CheckWith (P : X.Program) (m : X.Proc) (st : Stages) (img : Image) (code :
   decide (img.bytes.length / 4 ≤ spvI.toNat) &&
   decide (env.addr 1 = 4) && decide (env.addr (iStub cg.data + 3) < 2 ^ 32) &&
   gs2.constMap.all (constDataOk env) &&
-  (m.locals.map X.Decl.name ++ P.globals.map X.Decl.name).all (locBelow K)
+  (m.locals.map X.Decl.name ++ P.globals.map X.Decl.name).all (locBelow K) &&
+  decide (gs2.strs = [])
 
 /-- The generator state at the start of the body of `main` in a V1 program: one label per global
     and the exit label are taken; the locals occupy the first frame offsets. -/
@@ -306,7 +307,8 @@ theorem v1_core (P : X.Program) (m : X.Proc) (inp : X.Input) (fuel : Nat) (β : 
     (ha1 : env.addr 1 = 4) (hlink : env.addr (iStub cg.data + 3) < 2 ^ 32)
     (hcd : ∀ vl ∈ gs2.constMap, constDataOk env vl = true)
     (hlocs : ∀ n ∈ m.locals.map X.Decl.name ++ P.globals.map X.Decl.name,
-      locBelow (v1K cg env dummyXc gs2.constMap m.locals.length noHi) n = true) :
+      locBelow (v1K cg env dummyXc gs2.constMap m.locals.length noHi) n = true)
+    (hstrs : gs2.strs = []) :
     ∃ c io code, Steps env (cfg 0 0 0 mem0) (Isa.IOSt.init inp.stdin inp.files) c io ∧ Exit env c io code ∧
       code = β.exit ∧ io.log.reverse = β.events ∧ inp.stdin.length - io.stdin.length = β.stdinConsumed := by
   obtain ⟨f, hfuel, hexec⟩ := run_v1 P m inp fuel β hv hm hrun
@@ -336,7 +338,7 @@ theorem v1_core (P : X.Program) (m : X.Proc) (inp : X.Input) (fuel : Nat) (β : 
       n ∈ cg.tbl.map (fun e => e.1.2) := by
     intro n a h
     exact v1Loc_names cg _ _ _ n a h
-  have wf0 := wfsCheck_sound _ _ _ hnames (PCtx.arrOK_of_none _ (fun _ => rfl)) hy
+  have wf0 := wfsCheck_sound _ _ _ hnames (PCtx.arrOK_of_none _ (fun _ => rfl)) (PCtx.strOK_of_none _ rfl) hy
   obtain ⟨K, hK⟩ : ∃ K : PCtx, K = v1K cg env (v1Ctx P m fuel) gs2.constMap m.locals.length memP.read :=
     ⟨_, rfl⟩
   have wf : K.WFS (iEpi cg.data (frameOf cg 0).size (lowerCode cg code)) := by rw [hK]; exact wf0
@@ -359,7 +361,8 @@ theorem v1_core (P : X.Program) (m : X.Proc) (inp : X.Input) (fuel : Nat) (β : 
     refine ⟨by rw [hKsp]; exact hP1, fun n w h => by rw [hKρ] at h; simp at h, ?_, ?_, ?_, ?_,
       fun n hn => by rw [hK] at hn; simp [v1K] at hn, by rw [hK]; rfl,
       fun n r h => by rw [hKxc] at h; exact absurd h (readName_start_arr P m inp fuel n r),
-      fun id cells h => by simp [v1Start] at h⟩
+      fun id cells h => by simp [v1Start] at h,
+      fun l bs ws j k h => by rw [hK] at h; simp [v1K] at h⟩
     · intro n w _ h
       rw [hKxc] at h
       exact absurd h (readName_start P m inp fuel n w)
@@ -402,7 +405,9 @@ theorem v1_core (P : X.Program) (m : X.Proc) (inp : X.Input) (fuel : Nat) (β : 
     rw [hKenv, hKlow]; exact hpos.at_body
   have hout := (stmt_correct K _ wf f).1 m.body (v1Start P m inp) hbody gs1 code gs2
     (iBody cg.data (frameOf cg 0).size) a' (BitVec.ofNat 32 (spValue cg.globalsOffset).toNat) memP
-    hgen' hat rep (by rw [hKS]; exact hsz) (by rw [hKnl]; exact hnl) (fun e he => by rw [hKconsts]; exact he)
+    hgen' hat rep (by rw [hKS]; exact hsz) (by rw [hKnl]; exact hnl) (fun e he => by
+      have : K.items = gs2.items := by rw [hK]; simp [PCtx.items, GS.items, v1K, hstrs]
+      rw [this]; exact he)
   have hiEpi : iBody cg.data (frameOf cg 0).size + (lowerCode cg code).length
       = iEpi cg.data (frameOf cg 0).size (lowerCode cg code) := rfl
   rw [hKlow, hiEpi, hKxc] at hout
@@ -451,7 +456,7 @@ theorem v1_correct (P : X.Program) (m : X.Proc) (st : Stages) (img : Image) (inp
   · rename_i code gs2 hgen
     unfold v1CheckWith at hchk
     simp only [Bool.and_eq_true, decide_eq_true_eq, List.all_eq_true] at hchk
-    obtain ⟨⟨⟨⟨⟨⟨⟨⟨⟨⟨⟨⟨⟨⟨⟨⟨c1, c2⟩, c3⟩, c4⟩, c5⟩, c6⟩, c7⟩, c8⟩, c9⟩, c10⟩, c11⟩, c12⟩, c13⟩, c14⟩, c15⟩, c16⟩, c17⟩ := hchk
+    obtain ⟨⟨⟨⟨⟨⟨⟨⟨⟨⟨⟨⟨⟨⟨⟨⟨⟨c1, c2⟩, c3⟩, c4⟩, c5⟩, c6⟩, c7⟩, c8⟩, c9⟩, c10⟩, c11⟩, c12⟩, c13⟩, c14⟩, c15⟩, c16⟩, c17⟩, c18⟩ := hchk
     have g : Good st.optimised img :=
       ⟨parsedOkB_sound _ c3, c4, assembleDirs_ok _ _ hasm, c5, c6⟩
     have F := facts_of_good st.optimised img g
@@ -468,7 +473,7 @@ theorem v1_correct (P : X.Program) (m : X.Proc) (st : Stages) (img : Image) (inp
           show (envOf st.optimised img).addr (phi (peepSt st.lowered) (j + 1)) = (envOf st.optimised img).addr (phi (peepSt st.lowered) j)
           rw [hphi]
           exact label_facts st.optimised img.resolved.lens img.resolved.vals 0 _ k l hd')
-        hgen (Nat.le_refl _) c2 c7 c8 c9 c10 c11 c12 (hbeyond _ c13) (hbeyond _ (by omega)) c14 c15 c16 c17
+        hgen (Nat.le_refl _) c2 c7 c8 c9 c10 c11 c12 (hbeyond _ c13) (hbeyond _ (by omega)) c14 c15 c16 c17 c18
     have hnd : (labelNames st.lowered).Nodup := by
       unfold wfsCheck at c8
       simp only [Bool.and_eq_true, decide_eq_true_eq] at c8
